@@ -681,8 +681,8 @@ func genSort(r *rand.Rand) *SortCase {
 }
 
 func run(c *fw.Ctx) {
-	nh := c.Share(c.Pick(4000, 400000))
-	ns := c.Share(c.Pick(4000, 400000))
+	nh := c.Share(c.Pick(60000, 3000000))
+	ns := c.Share(c.Pick(60000, 3000000))
 	for i := 0; i < nh; i++ {
 		h := genHistory(c.R)
 		c.Begin(caseFile{H: h})
